@@ -558,6 +558,8 @@ pub fn check(case: &Case) -> Outcome {
                 out.fail(msg.to_string());
             } else if !line.starts_with("OK") {
                 out.fail(format!("INFRA: unexpected answer from the probe: {line}"));
+            } else if !line.ends_with("logs=0") {
+                out.class("messages-through-the-log-callback");
             }
         }
         Err(e) => out.fail(e),
